@@ -46,7 +46,30 @@ def _sbc_native(i):
     return [np.asarray(x) for x in res]
 
 
+def _sbc_patterns():
+    """4..5 containers [10k, 10k+8) with every empty / full occupancy pattern (full = 1 or 2 things inside), optionally with a long
+    thing that starts early and ends beyond the last container (sorted by start before contained things) and with things between
+    the containers"""
+    for nc in (4, 5):
+        conts = [(10 * k, 10 * k + 8) for k in range(nc)]
+        for occ in itertools.product((0, 1, 2), repeat=nc):
+            for extra in ((), ((0, 10 * nc + 5),), ((8, 10),), ((10 * (nc - 1), 10 * nc + 3),)):
+                things = []
+                for k, o in enumerate(occ):
+                    if o >= 1:
+                        things.append((10 * k + 1, 10 * k + 3))
+                    if o == 2:
+                        things.append((10 * k + 4, 10 * k + 8))
+                things = sorted(things + list(extra), key=lambda x: x[0])
+                # stable order for equal starts: the long thing first
+                yield things, conts
+
+
 def _sbc_gen(rng, tier):
+    pats = list(_sbc_patterns())
+    rng.shuffle(pats)
+    for t, c in pats[: (400 if tier == "quick" else len(pats))]:
+        yield dict(things=intervals(t, "endtime"), containers=intervals(c, rng.choice(("endtime", "dt"))))
     small_t = list(all_sorted_intervals(3, 5, min_len=1))
     small_c = list(all_sorted_intervals(2, 5, min_len=0, disjoint=True))
     for t in small_t:
@@ -67,7 +90,8 @@ split_by_containment = Contract(
                            ("containers non-negative", S.forall(0, a.containers.n, lambda i: _end(a.containers, i) >= a.containers.f("time", i)))],
     ensures=_sbc_ens, raises={},
     harness=Harness(native=_sbc_native, gen=_sbc_gen,
-                    scope="<=3 things x <=2 disjoint containers on grid 0..5, both endtime encodings (exhaustive) + random",
+                    scope="4..5 containers x every empty/one/two-things occupancy pattern x {no extra thing, a long thing ending beyond the last container, a thing between containers, "
+                          "a thing straddling the last container's end} (quick: 400 of them at random); <=3 things x <=2 disjoint containers on grid 0..5, both endtime encodings (exhaustive) + random",
                     nontrivial=lambda i: len(i["things"]) > 0 and len(i["containers"]) > 0))
 
 
